@@ -143,6 +143,22 @@ def run_check(prop, tier, seed, bounded=True):
         solver_s += o.get('time_s', 0)
 
     violated = [o for o in all_obs if o['status'] == 'violated']
+    # open known findings listed by the exact failing obligation (function variant + obligation): reported as KNOWN-FINDING, everything else stays a violation
+    exact = {}
+    for k in known:
+        for nm in k.get('obligations', []):
+            exact[nm] = k
+    still = []
+    for o in violated:
+        k = exact.get(o['name'])
+        if k is not None:
+            o['status'] = 'known-finding'
+            line = f"KNOWN-FINDING: property={prop} {k['what']}"
+            if line not in known_lines:
+                known_lines.append(line)
+        else:
+            still.append(o)
+    violated = still
     und_obs = [o for o in all_obs if o['status'] == 'undecided']
     discharged = [o for o in all_obs if o['status'] == 'discharged']
     for o in all_obs:
